@@ -331,7 +331,7 @@ def finish(ctx: Ctx, level: str, explanation: str, checker_cmd: str) -> int:
     if os.path.exists(LOCK):
         with open(LOCK) as f:
             lock = json.load(f).get(ctx.pid, None)
-        if lock is not None:
+        if lock is not None and not getattr(ctx, "only", None):
             have = {o.name for o in ctx.obligations if o.kind not in ("canary", "cover", "consistency")}
             missing = sorted(set(lock) - have)
             if missing:
